@@ -164,9 +164,9 @@ def _topo_case(draw, tier):
     eorder = draw(st.permutations(edges)) if edges else []
     # third field: what the caller does with the returned lists before the next call
     # (0 nothing, 1 reverses / extends an ordering in place, 2 empties the result)
-    ops = draw(st.lists(st.tuples(st.sampled_from(["all", "one"]), ORDER,
+    ops = draw(st.lists(st.tuples(st.sampled_from(["all", "one", "all", "one", "edit"]), ORDER,
                                   st.sampled_from([0, 0, 1, 2])).map(list),
-                        min_size=1, max_size=4))
+                        min_size=1, max_size=5))
     return {"engine": NAME, "kind": "topo", "n": n, "vorder": list(vorder),
             "edges": [list(e) for e in eorder], "ops": ops}
 
@@ -257,6 +257,25 @@ def _exec_topo(run, case):
     for idx, op in enumerate(case["ops"]):
         fn, order = op[0], op[1]
         use = op[2] if len(op) > 2 else 0
+        if fn == "edit":
+            # the caller changes its own graph IN PLACE between two calls: one edge toggled
+            # in a successor set of the same mapping object (`order` picks the pair)
+            if len(vertices) >= 1:
+                a = vertices[order % len(vertices)]
+                b = vertices[(order // 3 + use) % len(vertices)]
+                if (a, b) in edges:
+                    edges.remove((a, b))
+                    graph[a].discard(b)
+                else:
+                    edges.append((a, b))
+                    graph[a].add(b)
+                snapshot = {v: sorted(s._ord) for v, s in graph.items()}
+                expected = ref_toposorts(vertices, edges)
+                exp_multi = sorted(expected)
+                run.probe("graph_edited_in_place")
+                run.nontrivial = True
+            run.event(idx, "edit", order, len(edges))
+            continue
         ORACLE.begin(order)
         if fn == "all":
             got = topo.toposort_all(graph)
@@ -557,7 +576,8 @@ def describe(pid):
             "rule": "Hypothesis-drawn digraphs on 0-5 (thorough 0-6) vertices with drawn key "
                     "order, drawn edge insertion order, optional self-loops, optionally filtered "
                     "to be acyclic; a history of 1-4 toposort_all / toposort calls on the same "
-                    "graph object, each under a drawn iteration order of `set(graph)` and of "
+                    "graph object (between two calls the caller may toggle an edge of that object in "
+                    "place), each under a drawn iteration order of `set(graph)` and of "
                     "every successor set, after which the caller may reverse/extend/empty the lists it "
                     "was handed; results compared with permutation filtering and the "
                     "graph with its snapshot. Non-trivial: an order was permuted or more than "
@@ -567,7 +587,8 @@ def describe(pid):
             "assumptions": ["successor sets only mention vertices that are keys of the graph",
                             "seeded sampling, not exhaustive enumeration"],
             "probes_expected": ["order_permuted", "self_loop", "cyclic", "acyclic",
-                                "several_orderings", "caller_modified_result"],
+                                "several_orderings", "caller_modified_result",
+                                "graph_edited_in_place"],
         }
     return {
         "rule": "Hypothesis-drawn cases of three kinds: (1) DisjointSet histories of 1-7 (10) "
